@@ -14,6 +14,8 @@ type unitSpec struct {
 	// parameter of the generated definitions).  Pure lists its read-only methods; every other method is
 	// translated as a mutator `state -> args -> state * result`.
 	Abstract map[string]absSpec
+	// HeapMode: the pointer code of a linked list, translated against Model/LinkedCells.v (see heap.go)
+	HeapMode bool
 	// StructFiles: further files of the package read for their TYPE declarations only (the struct of a file that
 	// only contains methods).  External: methods of such a struct that are NOT translated but called: they
 	// become parameters `<Struct>_ext_<name> : Struct -> args -> Struct * result` (true) / `-> result` (false = read-only)
@@ -87,6 +89,9 @@ var whitelist = []unitSpec{
 		Abstract:     map[string]absSpec{"list": {Pure: listPure, Methods: []string{"FromJSON", "Size", "ToJSON"}}},
 		IgnoreFields: map[string]string{"Comparator": "comparator function value, used only by the heap's own (external) methods"},
 		External:     map[string]bool{"bubbleDownIndex": true}},
+	// the pointer code of the two linked lists (heap of cells, option monad): Model/LinkedCells.v
+	{GoFile: "lists/singlylinkedlist/singlylinkedlist.go", Module: "SinglyLinkedListCellsGen", HeapMode: true, Skip: cellsSkip},
+	{GoFile: "lists/doublylinkedlist/doublylinkedlist.go", Module: "DoublyLinkedListCellsGen", HeapMode: true, Skip: cellsSkip},
 	{GoFile: "queues/priorityqueue/priorityqueue.go", Module: "PriorityQueueWrapGen", ExtraFiles: []string{"queues/priorityqueue/serialization.go"},
 		Skip: map[string]string{"String": skipFmt, "New": skipCtor, "NewWith": skipCtor},
 		Abstract: map[string]absSpec{"heap": {Pure: []string{"Peek", "Empty", "Size", "Values", "ToJSON"},
@@ -121,3 +126,5 @@ var enumSkip = map[string]string{"String": skipFmt, "Each": "calls f only for it
 var enumOnlySkip = map[string]string{"Each": enumSkip["Each"]}
 var listOpaque = map[string]absSpec{"List": {Pure: listPure, Methods: []string{"Add", "Iterator", "lit.empty"}}}
 var linkedOpaque = map[string]absSpec{"List": {Pure: listPure, Methods: []string{"Add", "Clear", "Iterator", "Values", "lit.empty"}}}
+
+var cellsSkip = map[string]string{"String": skipFmt, "Sort": "takes a comparator and calls slices.SortFunc (a function value: not translated)"}
